@@ -14,5 +14,15 @@ if rc != 0:
 lib.extract_model()
 lib.build_driver()
 lib.build_harness()
+# warm the source-tie caches (tables, translated functions, linked regenerated decoder): keyed by content
+try:
+    import srcfacts, srctie2
+    w = os.path.join(lib.CACHE, 'work', 'setup')
+    r1 = srcfacts.check(lib.REPO, srcfacts.ALL_TIES, os.path.join(w, 'a'))
+    r2 = srctie2.check(lib.REPO, srctie2.ALL, os.path.join(w, 'b'))
+    r3 = srctie2.linked_check(lib.REPO, os.path.join(w, 'c'))
+    print('SETUP: source ties', sum(v == 'tied' for v in r1.values()), '/', len(r1), ';', sum(v.startswith('tied') for v in r2.values()), '/', len(r2), ';', r3.get('status'))
+except Exception as e:
+    print('SETUP: source ties not warmed:', repr(e)[:200])
 print('SETUP: ok')
 PY
